@@ -33,6 +33,12 @@ CONSTANTS MaxUnits,      \* number of units below the top level
           Start, Cont,   \* sequences of one-character strings: first / following characters of generated names
           DReserved,     \* reserved words of the reduced alphabet
           AllowWith, AllowVars, MaxUses,
+          AllowFlat,       \* B units may be *flattened* (fl): optimizeStmtList dissolves the block (else-block after a flow
+                           \* statement, single-statement block, switch case ...) and its lexical bindings, references and
+                           \* children move into the enclosing function scope
+          MoveAfterRename, \* FALSE = the code: the bindings have moved BEFORE renameScope(parent) runs, so they are renamed with
+                           \* the parent.  TRUE = wrong-design guard (renameScope first, optimise afterwards): the moved
+                           \* bindings keep their original spelling - JsRenamer_flatguard.cfg must violate CaptureFree
           OldWith,       \* FALSE = the code since fix 1b51557: every function that contains a with statement *anywhere
                          \* below it* keeps its names, and so does the top level when the program has a with.
                          \* TRUE = the behaviour before the fix (only the innermost function of a with is exempt): kept as
@@ -57,15 +63,16 @@ SeqsUpTo(S, n) == UNION {[1..k -> S] : k \in 0..n}
 Injective(s) == \A i, j \in DOMAIN s : i # j => s[i] # s[j]
 SubsetsUpTo(S, n) == {x \in SUBSET S : Cardinality(x) <= n}
 
-FUnits == {[kind |-> "F", ps |-> ps, ls |-> ls, vs |-> {}, us |-> us, w |-> w] :
+FUnits == {[kind |-> "F", ps |-> ps, ls |-> ls, vs |-> {}, us |-> us, w |-> w, fl |-> FALSE] :
              ps \in {s \in SeqsUpTo(LocalNames, MaxParams) : Injective(s)},
              ls \in SUBSET LocalNames, us \in SubsetsUpTo(Names, MaxUses), w \in (IF AllowWith THEN BOOLEAN ELSE {FALSE})}
-BUnits == {[kind |-> "B", ps |-> <<>>, ls |-> ls, vs |-> vs, us |-> us, w |-> FALSE] :
+BUnits == {[kind |-> "B", ps |-> <<>>, ls |-> ls, vs |-> vs, us |-> us, w |-> FALSE, fl |-> fl] :
              ls \in SUBSET LocalNames, vs \in (IF AllowVars THEN SubsetsUpTo(LocalNames, 1) ELSE {{}}),
-             us \in SubsetsUpTo(Names, MaxUses)}
+             us \in SubsetsUpTo(Names, MaxUses), fl \in (IF AllowFlat THEN BOOLEAN ELSE {FALSE})}
 UnitOK(u) == /\ Range(u.ps) \cap u.ls = {}
              /\ Len(u.ps) + Cardinality(u.ls) <= MaxDecl
              /\ u.vs \cap u.ls = {}                 \* `let x; var x` in one block is a syntax error
+             /\ u.fl => u.vs = {}
 Bodies == {u \in FUnits \cup BUnits : UnitOK(u)}
 
 \* parent vectors: unit i hangs below the top level or below an earlier unit
@@ -78,7 +85,18 @@ VarPathOK(us, i, name) ==
   IF i = 0 THEN name \notin Top           \* Top names are lexical declarations of the top level
   ELSE IF us[i].kind = "F" THEN name \notin us[i].ls     \* may join a parameter, not a let of the body
   ELSE name \notin us[i].ls /\ VarPathOK(us, us[i].par, name)
-TreeOK(us) == \A i \in DOMAIN us : \A v \in us[i].vs : VarPathOK(us, us[i].par, v)
+RECURSIVE Below(_, _, _)
+Below(us, j, i) == IF j = i THEN TRUE ELSE IF j = 0 THEN FALSE ELSE Below(us, us[j].par, i)
+\* a flattened block sits directly in a function without with, what it declares must be new there, and no code of that
+\* function outside the block refers to those names (they would come under the moved declaration: the flattening
+\* itself would change the meaning of the name-keeping output - a C01 matter, reported - and there is no reference world)
+FlatOK(us, i) ==
+  us[i].fl => /\ us[i].par # 0 /\ us[us[i].par].kind = "F" /\ ~us[us[i].par].w
+              /\ us[i].ls \cap (us[us[i].par].ls \cup {us[us[i].par].ps[k] : k \in DOMAIN us[us[i].par].ps}) = {}
+              /\ \A j \in DOMAIN us : (j # i /\ us[j].fl /\ us[j].par = us[i].par) => us[j].ls \cap us[i].ls = {}
+              /\ \A j \in DOMAIN us : (Below(us, j, us[i].par) /\ ~Below(us, j, i)) => us[j].us \cap us[i].ls = {}
+TreeOK(us) == /\ \A i \in DOMAIN us : \A v \in us[i].vs : VarPathOK(us, us[i].par, v)
+              /\ \A i \in DOMAIN us : FlatOK(us, i)
 
 (* ---------------- the tree as a JsScope program (keep world) ----------------
    scope numbering: 1 = top level; unit i of kind F owns scopes fs[i] (parameters), fs[i]+1 (body) and
@@ -87,15 +105,16 @@ TreeOK(us) == \A i \in DOMAIN us : \A v \in us[i].vs : VarPathOK(us, us[i].par, 
      fs   unit -> first scope          es  entries <<what, scope, name>>, what \in param let var use
      kp   the keep-world program       kr  occurrence -> binding scope in the keep world (0 = free)
      uo   entry -> unit whose code contains it (0 = top level) *)
-NScopes(u) == IF u.kind = "F" THEN (IF u.w THEN 3 ELSE 2) ELSE 1
+NScopes(u) == IF u.kind = "F" THEN (IF u.w THEN 3 ELSE 2) ELSE IF u.fl THEN 0 ELSE 1   \* a flattened block has no scope
 FirstScopes(us) == FoldLeft(LAMBDA acc, i : Append(acc, IF i = 1 THEN 2 ELSE acc[i - 1] + NScopes(us[i - 1])),
                             <<>>, [i \in 1..Len(us) |-> i])
-Inner(us, fs, i) == fs[i] + NScopes(us[i]) - 1                     \* where children and references live
-DeclScope(us, fs, i) == IF us[i].kind = "F" THEN fs[i] + 1 ELSE fs[i]   \* where let declarations live
+\* where children and references live / where let declarations live (flattened block: in its function, see FlatOK)
+Inner(us, fs, i) == IF us[i].fl THEN fs[us[i].par] + NScopes(us[us[i].par]) - 1 ELSE fs[i] + NScopes(us[i]) - 1
+DeclScope(us, fs, i) == IF us[i].kind = "F" THEN fs[i] + 1 ELSE IF us[i].fl THEN fs[us[i].par] + 1 ELSE fs[i]
 OuterOf(us, fs, i) == IF us[i].par = 0 THEN 1 ELSE Inner(us, fs, us[i].par)
 
 ScopesOf(us, fs, i) ==
-  IF us[i].kind = "B" THEN << <<OuterOf(us, fs, i), "block">> >>
+  IF us[i].kind = "B" THEN (IF us[i].fl THEN <<>> ELSE << <<OuterOf(us, fs, i), "block">> >>)
   ELSE << <<OuterOf(us, fs, i), "params">>, <<fs[i], "function">> >> \o (IF us[i].w THEN << <<fs[i] + 1, "with">> >> ELSE <<>>)
 
 EntriesOf(us, fs, i) ==
@@ -187,7 +206,10 @@ Assign(order, k, idx, taken, acc) ==
 
 Orders(us, a, i) ==
   LET ps == [k \in 1..Len(us[i].ps) |-> <<a.fs[i], us[i].ps[k]>>]
-      rest == BindingsOf(us, a, i) \ {ps[k] : k \in DOMAIN ps}
+      \* bindings that flattened blocks bring into this scope: on the scope's list only if they moved before it is renamed
+      moved == {<<a.kr[k], a.es[k][3]>> : k \in {j \in DOMAIN a.kr : a.es[j][1] = "let" /\ a.es[j][4] # 0 /\ a.es[j][4] # i
+                                                                       /\ us[a.es[j][4]].fl /\ us[a.es[j][4]].par = i}}
+      rest == (BindingsOf(us, a, i) \ {ps[k] : k \in DOMAIN ps}) \ (IF MoveAfterRename THEN moved ELSE {})
       cnt == [b \in rest |-> UsesOf(a, b)]
   IN {ps \o o : o \in {s \in [1..Cardinality(rest) -> rest] :
                          /\ Injective(s)
